@@ -42,7 +42,10 @@ RULE = ("The canonical case list of a tier is: for every corpus frame (a "
         "{0x00, 0xff, low-bit flip, high-bit flip, 2 fixed pseudo-random "
         "values} (quick) or x all 255 other byte values (thorough); for "
         "frames carrying a checksum the parser verifies (ICMPv6, IGMP) the "
-        "same again with the checksum repaired after the damage.  The list is "
+        "same again with the checksum repaired after the damage; and for "
+        "every IPv4 / IPv6 frame each shorter layer-3 payload with all the "
+        "lengths that describe it made to agree (a short but self-consistent "
+        "datagram, which no truncation of the frame produces).  The list is "
         "cut into BUDGET[tier] chunks; run i executes chunk i (exact, the run "
         "index is recovered from the driver's seed) plus a seeded batch of "
         "random cases (multi-byte mutation, length-field extremes, "
@@ -1009,6 +1012,58 @@ def step_values(name, k, spec):
 _UNITS = {}
 
 
+def _l3_of(f):
+  """(kind, offset of the layer-3 header) of an Ethernet frame, looking
+  through 802.1Q tags; None when it is neither IPv4 nor IPv6"""
+  if len(f) < 14:
+    return None
+  et = (f[12] << 8) | f[13]
+  off = 14
+  while et == 0x8100 and len(f) >= off + 4:
+    et = (f[off + 2] << 8) | f[off + 3]
+    off += 4
+  if et == 0x0800 and len(f) >= off + 20 and f[off] >> 4 == 4 \
+      and (f[off] & 0xf) >= 5 and len(f) >= off + (f[off] & 0xf) * 4:
+    return ("ip4", off)
+  if et == 0x86dd and len(f) >= off + 40:
+    return ("ip6", off)
+  return None
+
+
+def inner_len(f):
+  """bytes of layer-3 payload in a frame (0 when not IPv4 / IPv6)"""
+  l3 = _l3_of(f)
+  if l3 is None:
+    return 0
+  kind, off = l3
+  hl = (f[off] & 0xf) * 4 if kind == "ip4" else 40
+  return max(0, len(f) - off - hl)
+
+
+def inner_cut(name, f, k):
+  """the frame with its layer-3 payload shortened to k bytes and every
+  length that describes it made to agree (IP total / payload length, header
+  checksum, the UDP length of a directly following UDP header, and the
+  frame's registered checksum fix): a short but self-consistent datagram, as
+  opposed to a truncated frame"""
+  kind, off = _l3_of(f)
+  if kind == "ip4":
+    hl = (f[off] & 0xf) * 4
+    b = bytearray(f[:off + hl + k])
+    b[off + 2:off + 4] = _be16(hl + k)
+    b[off + 10:off + 12] = b"\0\0"
+    b[off + 10:off + 12] = _be16(F.csum(bytes(b[off:off + hl])))
+    proto, l4 = f[off + 9], off + hl
+    frag = ((f[off + 6] << 8) | f[off + 7]) & 0x3fff
+  else:
+    b = bytearray(f[:off + 40 + k])
+    b[off + 4:off + 6] = _be16(k)
+    proto, l4, frag = f[off + 6], off + 40, 0
+  if proto == 17 and not frag and k >= 8:
+    b[l4 + 4:l4 + 6] = _be16(k)
+  return apply_fix(name, bytes(b))
+
+
 def units(tier):
   """ordered list of (frame, mode, offset, cost) of the tier's enumerable
   space; cost = number of cases of the unit"""
@@ -1029,6 +1084,8 @@ def units(tier):
       for k in range(n):
         c = len(qvalues(name, k, f[k])) if tier == "quick" else 255
         out.append((name, bm, k, c))
+    for k in range(inner_len(f)):
+      out.append((name, "innercut", k, 1))
   _UNITS[tier] = out
   return out
 
@@ -1653,6 +1710,10 @@ def iter_cases(step):
       if mode == "truncfix":
         b = apply_fix(name, b)
       yield ("%s:%s:%d" % (name, mode, k), "trunc", name, b, (mode, k, None))
+  elif mode == "innercut":
+    for k in range(lo, min(hi, inner_len(f))):
+      yield ("%s:%s:%d" % (name, mode, k), "trunc", name,
+             inner_cut(name, f, k), (mode, k, None))
   elif mode in ("byte", "bytefix"):
     for k in range(lo, min(hi, len(f))):
       for v in step_values(name, k, step.get("values", "q")):
